@@ -183,6 +183,10 @@ def strings(tier):
         cs = chars if n <= 4 else [c for c in chars if c not in ('w', '0')]
         for t in itertools.product(cs, repeat=n):
             yield ''.join(t)
+    # the corners of the two keyboard layouts, where rows differ in length and one key sits at different places (every string of four keys)
+    for corner in ('\u044f\u0447\u0441\u0444\u044b,\u044e\u0431.1', 'zxas,./m<?'):
+        for t in itertools.product(corner, repeat=4):
+            yield ''.join(t)
     toks = TOKENS
     for n in range(1, 4):
         for t in itertools.product(toks, repeat=n):
